@@ -207,7 +207,11 @@ pub fn delete_any<P: AsRef<Path>>(path: P) -> std::io::Result<()> {
         // - unlink raises different exceptions on different OSes (linux: EISDIR, win32:
         // EACCES, OSX: EPERM) when invoked on a directory.
 
-        if path.is_dir() {
+        // (not following symlinks: a link to a directory is unlinked)
+        let is_dir = std::fs::symlink_metadata(path)
+            .map(|m| m.is_dir())
+            .unwrap_or(false);
+        if is_dir {
             std::fs::remove_dir(path)
         } else {
             std::fs::remove_file(path)
